@@ -11,6 +11,7 @@ from ..r_codebooks import rule_cx_radical_lists as _rule_cxr
 from ..r_readers import rule_leniency_scope as _rule_leniency
 from ..r_codebooks import rule_list_regex_items as _rule_listre
 from ..r_round8 import rule_sibling_options as _r8_opts, rule_cx_index_language as _r8_cx
+from ..r_round10 import rule_positional_mapping_list as _r10_map
 
 LEVEL = 'other'
 EXEMPT = {('_convert', 'create_molecule', 'AtomNotFound'): 'infeasible for the daylight readers: every bond end was just inserted by the same parser '
@@ -41,3 +42,4 @@ def run(ck, repo):
                                                    ('chython.files.daylight.smarts', 'cx_radicals')])
     _r8_opts(ck, repo, 'C03.D6-sibling-options')
     _r8_cx(ck, repo, 'C03.D6-cx-index-language', ['chython.files.daylight.smiles', 'chython.files.daylight.smarts'])
+    _r10_map(ck, repo, 'C03.D7-positional-mapping-list')
